@@ -126,3 +126,9 @@ package layers
 //@   loop 0: decreases eg.ASPathCount - i
 //@   loop 1: invariant 0 <= j && j <= communitiesLength && len(eg.Communities) == communitiesLength && 4*(communitiesLength - j) <= len(*data)
 //@   loop 1: decreases communitiesLength - j
+
+// decodeEthernetCounters reads its first word without a check of its own: its only caller has just read the same
+// four bytes (the counter record format) from *data.
+//@ func decodeEthernetCounters(data *[]byte) (SFlowEthernetCounters, error)
+//@   props C19 C01 C02 C04
+//@   requires len(*data) >= 4
